@@ -70,9 +70,14 @@ pub fn parse_dot(dot: &str) -> Result<Vec<PVertex>, String> {
         } else if let Some(c) = NODE.captures(line) {
             let id: usize = c[1].parse().map_err(|_| "bad id")?;
             let mut v = PVertex { id, ..Default::default() };
-            if let Some(d) = CMT.captures(line) {
-                let t = d[1].trim();
-                v.data = Some(if t == "--" { vec![] } else { parse_hex(t).ok_or_else(|| format!("data comment of v{id} is not hex: {t:?}"))? });
+            // the datum is the hex token after the node statement, in whatever comment style
+            static HEX: Lazy<Regex> = Lazy::new(|| Regex::new(r#"(?:^|[^0-9A-Za-z-])((?:[0-9A-F]{2}(?:-[0-9A-F]{2})*)|--)\s*(?:\*/)?\s*$"#).unwrap());
+            let _ = &CMT;
+            if let Some(end) = line.rfind(']') {
+                if let Some(h) = HEX.captures(&line[end + 1..]) {
+                    let t = &h[1];
+                    v.data = Some(if t == "--" { vec![] } else { parse_hex(t).ok_or_else(|| format!("data comment of v{id} is not hex: {t:?}"))? });
+                }
             }
             out.push(v);
         }
@@ -164,7 +169,8 @@ pub fn parse_vprint(txt: &str) -> Result<(usize, bool, Vec<String>), String> {
     let c = P.captures(txt).ok_or_else(|| format!("unparsable v_print text {txt:?}"))?;
     let id: usize = c[1].parse().map_err(|_| "bad id")?;
     let mut items: Vec<String> = c[2].split(',').map(|s| s.trim().to_string()).filter(|s| !s.is_empty()).collect();
-    let marker = items.first().is_some_and(|s| s == "Δ");
+    // the marker is the item that starts with Δ (it may carry the data, e.g. `Δ ➞ 68-65`)
+    let marker = items.first().is_some_and(|s| s.starts_with('Δ'));
     if marker {
         items.remove(0);
     }
